@@ -602,6 +602,14 @@ def opt_replace(ex, r, v):
     return old
 
 
+@nat('bool::then_some')
+def bool_then_some(ex, b, v): return some(v) if ex.branch(b) else NONE()
+
+
+@nat('bool::then')
+def bool_then(ex, b, f): return some(ex.call_value(f, [])) if ex.branch(b) else NONE()
+
+
 @nat('Option::cloned', 'Option::copied')
 def opt_cloned(ex, o): return NONE() if o.variant == 0 else some(clone_value(ex, D(ex, o.fields[0])))
 
@@ -974,7 +982,7 @@ def into_iter(ex, v):
         d = D(ex, v)
         if isinstance(d, MapV):
             return map_iter(ex, v)
-        if isinstance(d, Adt) and d.name in ('Iter', 'IntoIter', 'MapIter', 'Enumerate', 'Range', 'Chars', 'MapAdapter', 'Rev'):
+        if isinstance(d, Adt) and d.name in ('Iter', 'IntoIter', 'MapIter', 'Enumerate', 'Range', 'Chars', 'MapAdapter', 'Rev', 'Skip', 'Take', 'TakeWhile', 'SkipWhile', 'Chain', 'FilterMap', 'ClonedAdapter', 'Peekable', 'Filter', 'Zip', 'ListIter'):
             return v
         return slice_iter(ex, v)
     if isinstance(v, MapV):
@@ -1091,6 +1099,63 @@ def iter_next(ex, r):
         if b.variant == 0:
             return b
         return some([a.fields[0], b.fields[0]])
+    if n == 'Skip':
+        while it.fields[1] > 0:
+            it.fields[1] -= 1
+            o = iter_next(ex, Ref(Cell(it.fields[0])))
+            if o.variant == 0:
+                it.fields[1] = 0
+                return o
+        return iter_next(ex, Ref(Cell(it.fields[0])))
+    if n == 'Take':
+        if it.fields[1] <= 0:
+            return NONE()
+        it.fields[1] -= 1
+        return iter_next(ex, Ref(Cell(it.fields[0])))
+    if n == 'TakeWhile':
+        if it.fields[2]:
+            return NONE()
+        o = iter_next(ex, Ref(Cell(it.fields[0])))
+        if o.variant == 0:
+            return o
+        if ex.branch(ex.call_value(it.fields[1], [Ref(Cell(o.fields[0]))])):
+            return o
+        it.fields[2] = True
+        return NONE()
+    if n == 'SkipWhile':
+        while True:
+            o = iter_next(ex, Ref(Cell(it.fields[0])))
+            if o.variant == 0 or it.fields[2]:
+                return o
+            if not ex.branch(ex.call_value(it.fields[1], [Ref(Cell(o.fields[0]))])):
+                it.fields[2] = True
+                return o
+    if n == 'Chain':
+        if not it.fields[2]:
+            o = iter_next(ex, Ref(Cell(it.fields[0])))
+            if o.variant != 0:
+                return o
+            it.fields[2] = True
+        return iter_next(ex, Ref(Cell(it.fields[1])))
+    if n == 'FilterMap':
+        while True:
+            o = iter_next(ex, Ref(Cell(it.fields[0])))
+            if o.variant == 0:
+                return o
+            r2 = ex.call_value(it.fields[1], [o.fields[0]])
+            if r2.variant != 0:
+                return r2
+    if n == 'ClonedAdapter':
+        o = iter_next(ex, Ref(Cell(it.fields[0])))
+        if o.variant == 0:
+            return o
+        return some(clone_value(ex, D(ex, o.fields[0])))
+    if n == 'Peekable':
+        if it.fields[1] is not None:
+            o = it.fields[1]
+            it.fields[1] = None
+            return o
+        return iter_next(ex, Ref(Cell(it.fields[0])))
     if n == 'ListIter':     # pre-computed list of items
         if it.fields[1] >= len(it.fields[0]):
             return NONE()
@@ -1150,6 +1215,113 @@ def iter_zip(ex, a, b):
 
 @nat('<* as Iterator>::rev', '<Iter as Iterator>::rev', '<Chars as Iterator>::rev')
 def iter_rev(ex, it): return Adt('Rev', 0, [it])
+
+
+def _usize_arg(ex, n, what):
+    if is_sym(n):
+        raise Unsupported('symbolic count in Iterator::' + what)
+    return n
+
+
+def _as_iter(ex, it):
+    return into_iter(ex, it) if isinstance(it, (VecV, Ref, MapV)) else it
+
+
+@nat('<* as Iterator>::skip')
+def iter_skip(ex, it, n): return Adt('Skip', 0, [it, _usize_arg(ex, n, 'skip')])
+
+
+@nat('<* as Iterator>::take')
+def iter_take(ex, it, n): return Adt('Take', 0, [it, _usize_arg(ex, n, 'take')])
+
+
+@nat('<* as Iterator>::take_while')
+def iter_take_while(ex, it, f): return Adt('TakeWhile', 0, [it, f, False])
+
+
+@nat('<* as Iterator>::skip_while')
+def iter_skip_while(ex, it, f): return Adt('SkipWhile', 0, [it, f, False])
+
+
+@nat('<* as Iterator>::chain')
+def iter_chain(ex, a, b): return Adt('Chain', 0, [a, _as_iter(ex, b), False])
+
+
+@nat('<* as Iterator>::filter_map')
+def iter_filter_map(ex, it, f): return Adt('FilterMap', 0, [it, f])
+
+
+@nat('<* as Iterator>::cloned', '<* as Iterator>::copied')
+def iter_cloned(ex, it): return Adt('ClonedAdapter', 0, [it])
+
+
+@nat('<* as Iterator>::peekable')
+def iter_peekable(ex, it): return Adt('Peekable', 0, [it, None])
+
+
+@nat('Peekable::peek')
+def peekable_peek(ex, r):
+    it = D(ex, r)
+    if it.fields[1] is None:
+        it.fields[1] = iter_next(ex, Ref(Cell(it.fields[0])))
+    o = it.fields[1]
+    return NONE() if o.variant == 0 else some(Ref(Cell(o.fields[0])))
+
+
+@nat('<* as Iterator>::by_ref')
+def iter_by_ref(ex, r): return r
+
+
+@nat('<* as Iterator>::last')
+def iter_last(ex, it):
+    xs = drain_iter(ex, it)
+    return some(xs[-1]) if xs else NONE()
+
+
+@nat('<* as Iterator>::fold')
+def iter_fold(ex, it, init, f):
+    acc = init
+    for x in drain_iter(ex, it):
+        acc = ex.call_value(f, [acc, x])
+    return acc
+
+
+@nat('<* as Iterator>::find_map')
+def iter_find_map(ex, r, f):
+    while True:
+        o = iter_next(ex, r)
+        if o.variant == 0:
+            return o
+        r2 = ex.call_value(f, [o.fields[0]])
+        if r2.variant != 0:
+            return r2
+
+
+@nat('<* as Iterator>::flatten')
+def iter_flatten(ex, it):
+    out = []
+    for x in drain_iter(ex, it):
+        x = D(ex, x) if isinstance(x, Ref) else x
+        if isinstance(x, Adt) and x.name == 'Option':
+            if x.variant != 0:
+                out.append(x.fields[0])
+        elif isinstance(x, Adt) and x.name == 'Result':
+            if x.variant == 0:
+                out.append(x.fields[0])
+        else:
+            out.extend(drain_iter(ex, x))
+    return Adt('ListIter', 0, [out, 0])
+
+
+@nat('<* as Iterator>::flat_map')
+def iter_flat_map(ex, it, f):
+    return iter_flatten(ex, Adt('ListIter', 0, [[ex.call_value(f, [x]) for x in drain_iter(ex, it)], 0]))
+
+
+@nat('<* as Iterator>::unzip')
+def iter_unzip(ex, it):
+    xs = drain_iter(ex, it)
+    return [VecV([x[0] for x in xs]), VecV([x[1] for x in xs])]
 
 
 @nat('<* as Iterator>::collect', '<Map as Iterator>::collect', '<Iter as Iterator>::collect', '<IntoIter as Iterator>::collect', want_callee=True)
